@@ -866,6 +866,14 @@ func (e *Engine) unbox(ifc string, t types.Type) Value {
 	}
 	tm := sx(un, sx("i_val", ifc))
 	e.assume("true", e.rangeFact(tm, t))
+	if e.bound == 0 {
+		// boxing the unboxed payload of a value of dynamic type t gives the payload back
+		k := "unboxinst:" + un + ":" + ifc
+		if !e.declared[k] {
+			e.declared[k] = true
+			e.assumes = append(e.assumes, implies(eq(sx("i_tid", ifc), fmt.Sprint(e.tid(t))), eq(sx(fn, tm), sx("i_val", ifc))))
+		}
+	}
 	return Value{tm, t}
 }
 
